@@ -7,6 +7,23 @@
 #include "vp_codebook.h"
 
 int vg_r, vg_w, vg_b, vh_r, vh_w, vk_r, vk_w, vg_i, vg_j;
+
+/* VP-ASSUMPTION: stubs standing in for the factorisation inside solve.c where a group says so (solve.c compiled with
+ * -D_mzd_pluq=vp_stub_pluq etc.): they return an arbitrary rank / verdict (SOLVE_PAD) or the harness-constructed
+ * factorisation of concrete rank (KERNEL); the real routines carry the certificate contract of C03. */
+int vp_stub_rank;
+rci_t *vp_stub_Q;
+/* rank-0 "factorisation" with identity permutations: keeps every shape inside the PLUQ solve concrete; only used where
+ * the obligation does not depend on the factorisation (padding rows of B) */
+rci_t vp_stub_pluq0(mzd_t *A, mzp_t *P, mzp_t *Q, int cutoff) {
+  for (int i = 0; i < P->length; ++i) P->values[i] = i;
+  for (int j = 0; j < Q->length; ++j) Q->values[j] = j;
+  return 0;
+}
+rci_t vp_stub_pluq_given(mzd_t *A, mzp_t *P, mzp_t *Q, int cutoff) {
+  for (int j = 0; j < Q->length; ++j) Q->values[j] = vp_stub_Q[j];
+  return vp_stub_rank;
+}
 #define EV(n) ((((n) + 63) / 64 + 1) & ~1)
 #ifndef FULL
 #define FULL 1
@@ -197,53 +214,117 @@ void harness(void) {
   VP_ASSERT(vp_eq(&T1, &T2), "B * A == I");
 #endif
 
-#elif defined(H_SOLVE)
-  /* ---- C06: consistency verdict and A*X == B; B has max(m,n) rows ---- */
+#elif defined(H_PLUQ_SOLVE)
+  /* ---- C06 (a): the variant that is handed a PLUQ factorisation, rank RK concrete (all shapes inside are then concrete).
+   * A holds an arbitrary factorisation: L (m x RK, below the diagonal), U (RK x n, on and right of the unit diagonal), zero
+   * elsewhere; P, Q arbitrary LAPACK permutations.  The original matrix is reconstructed spec-side. ---- */
 #define BR (M_ > N_ ? M_ : N_)
+  VP_IN_ARR(rci_t, in_P, M_);
+  VP_IN_ARR(rci_t, in_Q, N_);
+  mzp_t Ps, Qs;
+  Ps.values = in_P, Ps.length = M_, Qs.values = in_Q, Qs.length = N_;
+  for (int i = 0; i < M_; ++i) VP_ASSUME(in_P[i] >= i && in_P[i] < M_);
+  for (int jq = 0; jq < N_; ++jq) VP_ASSUME(in_Q[jq] >= jq && in_Q[jq] < N_);
+  vp_mat_t L, U, Orig;
+  L.nr = M_, L.nc = M_, U.nr = M_, U.nc = N_;
+  for (int i = 0; i < VR; ++i)
+    for (int jc = 0; jc < VC; ++jc) {
+      if (i < M_ && jc < N_) {
+        int keep = (jc < RK && jc < i) || (i < RK && jc > i); /* strictly-lower part of the first RK columns, strictly-upper part of the first RK rows */
+        int diag = (i == jc && i < RK);
+        if (!keep) mzd_write_bit(A, i, jc, diag);
+      }
+    }
+  vp_read(&A0, A);
+  for (int i = 0; i < VR; ++i)
+    for (int jc = 0; jc < VC; ++jc) {
+      L.a[i][jc] = (i < M_ && jc < RK && jc < i) ? A0.a[i][jc] : (unsigned char)(i == jc && i < M_);
+      U.a[i][jc] = (i < RK && jc < N_ && jc > i) ? A0.a[i][jc] : (unsigned char)(i == jc && i < RK);
+    }
+  vp_mul(&Orig, &L, &U); /* P^T A Q^T = L U  =>  A = undo the swaps in reverse order */
+  for (int jq = N_ - 1; jq >= 0; --jq) vp_swap_cols(&Orig, jq, in_Q[jq]);
+  for (int i = M_ - 1; i >= 0; --i) vp_swap_rows(&Orig, i, in_P[i]);
+  Orig.nr = M_, Orig.nc = N_;
   VP_MAT_DECL(B, BR, EV(BW));
   VP_MAT_SETUP(B, BR, EV(BW), BR, BW, 0, 0, 0);
   vp_mat_t B0, X, Aug;
   vp_read(&B0, B);
-  int ret = mzd_solve_left(A, B, CUTOFF, 1);
+  int ret = mzd_pluq_solve_left(A, RK, &Ps, &Qs, B, CUTOFF, 1);
   VP_CANARY();
-  /* solvable  <=>  rank [A'|B] == rank A' where A' is A padded with zero rows to max(m,n) rows */
   Aug.nr = BR, Aug.nc = N_ + BW;
   for (int i = 0; i < VR; ++i)
-    for (int j = 0; j < VC; ++j) Aug.a[i][j] = (i < BR && j < N_ + BW) ? (j < N_ ? (i < M_ ? A0.a[i][j] : 0) : B0.a[i][j - N_]) : 0;
-  int solvable = vp_rank(&Aug) == vp_rank(&A0);
-  VP_ASSERT((ret == 0) == solvable, "solve returns 0 exactly when A*X == B (including the padding rows) has a solution");
-  VP_ASSERT(ret == 0 || ret == -1, "solve returns 0 or -1");
+    for (int jc = 0; jc < VC; ++jc) Aug.a[i][jc] = (i < BR && jc < N_ + BW) ? (jc < N_ ? (i < M_ ? Orig.a[i][jc] : 0) : B0.a[i][jc - N_]) : 0;
+  int solvable = vp_rank(&Aug) == vp_rank(&Orig);
+  VP_ASSERT(vp_rank(&Orig) == RK, "harness sanity: the constructed factorisation has rank RK");
+  VP_ASSERT((ret == 0) == solvable, "pluq_solve returns 0 exactly when A*X == B (including the padding rows) has a solution");
+  VP_ASSERT(ret == 0 || ret == -1, "pluq_solve returns 0 or -1");
   if (ret == 0) {
     vp_read(&X, B);
     X.nr = N_;
     for (int i = 0; i < VR; ++i)
-      for (int j = 0; j < VC; ++j)
-        if (i >= N_) X.a[i][j] = 0;
-    vp_mul(&T1, &A0, &X);
+      for (int jc = 0; jc < VC; ++jc)
+        if (i >= N_) X.a[i][jc] = 0;
+    vp_mul(&T1, &Orig, &X);
     vp_mat_t Btop = B0;
     Btop.nr       = M_;
     for (int i = 0; i < VR; ++i)
-      for (int j = 0; j < VC; ++j)
-        if (i >= M_) Btop.a[i][j] = 0;
+      for (int jc = 0; jc < VC; ++jc)
+        if (i >= M_) Btop.a[i][jc] = 0;
     VP_ASSERT(vp_eq(&T1, &Btop), "the first n rows of B hold X with A*X == original right-hand side");
   }
 
-#elif defined(H_KERNEL)
-  /* ---- C07 ---- */
-  mzd_t *K = mzd_kernel_left_pluq(A, CUTOFF);
+#elif defined(H_SOLVE_PAD)
+  /* ---- C06 (b): _mzd_solve_left's own padding check, with _mzd_pluq replaced by a rank-0 stub (the obligation does not
+   * depend on the factorisation): a non-zero padding row of B (rows m..max(m,n)-1) yields -1 ---- */
+#define BR (M_ > N_ ? M_ : N_)
+  VP_MAT_DECL(B, BR, EV(BW));
+  VP_MAT_SETUP(B, BR, EV(BW), BR, BW, 0, 0, 0);
+  vp_mat_t B0;
+  vp_read(&B0, B);
+  int pad_nonzero = 0;
+  for (int i = 0; i < VR; ++i)
+    for (int jc = 0; jc < VC; ++jc)
+      if (i >= M_ && i < BR && jc < BW && B0.a[i][jc]) pad_nonzero = 1;
+  int ret = mzd_solve_left(A, B, CUTOFF, 1);
   VP_CANARY();
-  int rk = vp_rank(&A0);
-  VP_ASSERT((K == NULL) == (rk == N_), "kernel returns NULL exactly when rank == n");
+  VP_ASSERT(!pad_nonzero || ret == -1, "a system whose inconsistency sits only in a padding row of B is reported unsolvable");
+  VP_ASSERT(ret == 0 || ret == -1, "solve returns 0 or -1");
+
+#elif defined(H_KERNEL)
+  /* ---- C07: mzd_kernel_left_pluq with mzd_pluq replaced by a stub that hands back an arbitrary factorisation of concrete rank RK
+   * (constructed as in H_PLUQ_SOLVE): NULL iff RK == n, else n x (n-RK), A*K == 0 for the reconstructed original, columns independent ---- */
+  VP_IN_ARR(rci_t, in_Q, N_);
+  for (int jq = 0; jq < N_; ++jq) VP_ASSUME(in_Q[jq] >= jq && in_Q[jq] < N_);
+  for (int i = 0; i < VR; ++i)
+    for (int jc = 0; jc < VC; ++jc)
+      if (i < M_ && jc < N_) {
+        int keep = (jc < RK && jc < i) || (i < RK && jc > i);
+        int diag = (i == jc && i < RK);
+        if (!keep) mzd_write_bit(A, i, jc, diag);
+      }
+  vp_read(&A0, A);
+  vp_mat_t U, Orig;
+  U.nr = M_, U.nc = N_;
+  for (int i = 0; i < VR; ++i)
+    for (int jc = 0; jc < VC; ++jc) U.a[i][jc] = (i < RK && jc < N_ && jc > i) ? A0.a[i][jc] : (unsigned char)(i == jc && i < RK);
+  Orig = U; /* kernel(A) = kernel(U Q) because P and L are invertible: it suffices to test (U Q) K == 0 */
+  for (int jq = N_ - 1; jq >= 0; --jq) vp_swap_cols(&Orig, jq, in_Q[jq]);
+  Orig.nr = M_, Orig.nc = N_;
+  vp_stub_rank = RK;
+  vp_stub_Q    = in_Q;
+  mzd_t *K     = mzd_kernel_left_pluq(A, CUTOFF);
+  VP_CANARY();
+  VP_ASSERT((K == NULL) == (RK == N_), "kernel returns NULL exactly when rank == n");
   if (K != NULL) {
-    VP_ASSERT(K->nrows == N_ && K->ncols == N_ - rk, "kernel basis is n x (n - r)");
+    VP_ASSERT(K->nrows == N_ && K->ncols == N_ - RK, "kernel basis is n x (n - r)");
     vp_mat_t Km;
     vp_read(&Km, K);
-    vp_mul(&T1, &A0, &Km);
+    vp_mul(&T1, &Orig, &Km);
     int z = 1;
     for (int i = 0; i < VR; ++i)
-      for (int j = 0; j < VC; ++j) z = z && T1.a[i][j] == 0;
-    VP_ASSERT(z, "A * K == 0 for the original A");
-    VP_ASSERT(vp_rank(&Km) == N_ - rk, "the columns of K are linearly independent");
+      for (int jc = 0; jc < VC; ++jc) z = z && T1.a[i][jc] == 0;
+    VP_ASSERT(z, "A * K == 0 (tested on U*Q, equivalent because P and L are invertible)");
+    VP_ASSERT(vp_rank(&Km) == N_ - RK, "the columns of K are linearly independent");
   }
 #else
 #error mode
